@@ -534,11 +534,21 @@ Definition agrees (R : rules) (c : case) : bool :=
   | Some t => oexpr_eqb (Some t) back
   | None => true
   end &&
-  Bool.eqb (model_rt R e) impl_ok &&
+  (* ... and then the implementation's verdict is the model's; text outside the grammar may or
+     may not be accepted by the (more permissive) reader: see std_text *)
+  match parse (write R e) with
+  | Some t => Bool.eqb (expr_eqb t e) impl_ok
+  | None => true
+  end &&
   (* the theorem's prediction: safe trees survive the round trip *)
   implb (safe R e) impl_ok &&
   implb (wf e && shape_ok R e) (safe R e).
 Definition agrees_impl := agrees impl_rules.
+(* the written text is in the standard grammar, or the round trip is already counted as failing *)
+Definition std_text (R : rules) (c : case) : bool :=
+  let '(e, _, _, impl_ok) := c in
+  match parse (write R e) with Some _ => true | None => negb impl_ok end.
+Definition agrees_strict_impl (c : case) : bool := agrees impl_rules c && std_text impl_rules c.
 
 (* grammar cases: (tokens, tree the frontend built from the rendered text or None).
    One-directional: the frontend may accept more than the standard grammar. *)
